@@ -27,17 +27,17 @@ import (
 )
 
 type job struct {
-	Kind    string // xzW lzmaW lzma2W xzR lzmaR lzma2R
+	Kind       string // xzW lzmaW lzma2W xzR lzmaR lzma2R
 	LC, LP, PB int
-	Dict    int
-	Matcher int
-	Block   int64
-	Check   byte
-	Family  string
-	N       int
-	Seed    uint64
-	Stream  []byte `json:"-"` // reader jobs: input stream
-	Content []byte `json:"-"`
+	Dict       int
+	Matcher    int
+	Block      int64
+	Check      byte
+	Family     string
+	N          int
+	Seed       uint64
+	Stream     []byte `json:"-"` // reader jobs: input stream
+	Content    []byte `json:"-"`
 }
 
 func (j job) key() string {
@@ -141,17 +141,17 @@ func run(j job, g int32, yseed uint64) (out []byte, err error) {
 }
 
 type result struct {
-	GOMAXPROCS   int               `json:"gomaxprocs"`
-	Rounds       int               `json:"rounds"`
-	InstanceRuns int               `json:"instance_runs"`
-	Digests      map[string]string `json:"digests"` // job key -> sha256 of its output (concurrent runs)
-	Mismatch     []string          `json:"mismatch"`
-	Errors       []string          `json:"errors"`
-	Signatures   []string          `json:"interleaving_signatures"`
-	BoundaryCalls int64            `json:"boundary_calls"`
-	Switches     int64             `json:"goroutine_switches_observed"`
-	Kinds        map[string]int    `json:"kinds"`
-	Configs      int               `json:"distinct_configs"`
+	GOMAXPROCS    int               `json:"gomaxprocs"`
+	Rounds        int               `json:"rounds"`
+	InstanceRuns  int               `json:"instance_runs"`
+	Digests       map[string]string `json:"digests"` // job key -> sha256 of its output (concurrent runs)
+	Mismatch      []string          `json:"mismatch"`
+	Errors        []string          `json:"errors"`
+	Signatures    []string          `json:"interleaving_signatures"`
+	BoundaryCalls int64             `json:"boundary_calls"`
+	Switches      int64             `json:"goroutine_switches_observed"`
+	Kinds         map[string]int    `json:"kinds"`
+	Configs       int               `json:"distinct_configs"`
 }
 
 func digest(b []byte) string { h := sha256.Sum256(b); return hex.EncodeToString(h[:8]) }
